@@ -44,18 +44,26 @@ class Harness:
         self.shim.verif_watch.argtypes = [ctypes.c_void_p]
         self.shim.verif_query.argtypes = [ctypes.c_int]
         self.shim.verif_forget.argtypes = [ctypes.c_int]
+        self.shim.verif_last_double_free.restype = ctypes.c_void_p
         self.Tensor = Tensor
         self.b = Tensor.from_dok({(0,): 1.5, (2,): 2.5}, dimensions=(4,), format="s")
         self.c = Tensor.from_dok({(2,): 4.0, (3,): 8.0}, dimensions=(4,), format="s")
         self.two = Tensor.from_lol([2.0, 2.0, 2.0, 2.0])
+        # a matrix with a zero-sized dimension: its block-sparse copy has arrays of length 0
+        self.zero = Tensor.from_dok({}, dimensions=(3, 0), format="ss")
+        self.mat = Tensor.from_dok({(0, 1): 1.5, (2, 0): 2.5}, dimensions=(3, 2), format="ds")
         self.methods = {}
         for be in backends:
             B = BackendCompiler[be]
             self.methods[("s", be)] = tensor_method("a(i) = b(i) + c(i)", {"a": "s", "b": "s", "c": "s"}, B)
             self.methods[("d", be)] = tensor_method("a(i) = b(i) + c(i)", {"a": "d", "b": "s", "c": "s"}, B)
             self.methods[("0", be)] = tensor_method("a() = b(i) * c(i)", {"a": "", "b": "s", "c": "s"}, B)
+            self.methods[("z", be)] = tensor_method("a(i,j) = b(i,j) * 2", {"a": "sd", "b": "ss"}, B)
+            self.methods[("m", be)] = tensor_method("a(i,j) = b(i,j) * 2", {"a": "sd", "b": "ds"}, B)
             self.methods[("fs", be)] = tensor_method("a(i) = b(i) * c(i)", {"a": "s", "b": "s", "c": "d"}, B)
             self.methods[("fd", be)] = tensor_method("a(i) = b(i) * c(i)", {"a": "d", "b": "d", "c": "d"}, B)
+        self.double_frees_seen = self.shim.verif_double_frees()
+        self.shim.verif_track(1)
         self.reset()
 
     def reset(self):
@@ -105,7 +113,7 @@ class Harness:
     def enabled(self, backends):
         ops = []
         for s in SLOTS:
-            for k in "sd0":
+            for k in "sd0zm":
                 for be in backends:
                     ops.append(("EVAL", s, k, be))
         for x in SLOTS:
@@ -137,7 +145,12 @@ class Harness:
         if name == "EVAL":
             _, s, kind, be = op
             self.drop(s)
-            t = self.methods[(kind, be)](b=self.b, c=self.c)
+            if kind == "z":
+                t = self.methods[(kind, be)](b=self.zero)
+            elif kind == "m":
+                t = self.methods[(kind, be)](b=self.mat)
+            else:
+                t = self.methods[(kind, be)](b=self.b, c=self.c)
             o = self.new_kernel_obj(t, kind, be)
             self.slots[s] = (o.oid, "T")
             self.real[s] = t
@@ -187,6 +200,13 @@ class Harness:
     # ------------------------------------------------------------------ oracle
     def check(self, after_gc, problems):
         from .rt import raw_image
+
+        n = self.shim.verif_double_frees()
+        if n != self.double_frees_seen:
+            addr = self.shim.verif_last_double_free()
+            problems.append(("double-free", f"free() of {hex(addr or 0)}, which was already freed and not handed out "
+                                            f"again ({n - self.double_frees_seen} such call(s)); swallowed by the interposer"))
+            self.double_frees_seen = n
 
         for oid, o in self.objs.items():
             for p, n, content, handle in o.addrs:
@@ -273,6 +293,7 @@ def explore(spec):
     run_history(h, [], problems)
     seen[h.canonical()] = []
     h.teardown(problems)
+    part, parts = spec.get("part", 0), spec.get("parts", 1)
     sig_seen = set()
     sample = None
     while frontier:
@@ -281,6 +302,9 @@ def explore(spec):
         run_history(h, hist, problems)
         ops = h.enabled(backends)
         h.teardown(problems)
+        if not hist and parts > 1:
+            # work partitioning: this process explores the histories whose first operation is in its share
+            ops = [op for k, op in enumerate(ops) if k % parts == part]
         for op in ops:
             problems = []
             new = hist + [list(op)]
